@@ -30,7 +30,7 @@ ASSUMPTIONS = [
 VARIANTS = ["native", "swapped", "strided", "negstride", "swapped-strided", "swapped-negstride", "f4", "i8", "0d", "2d", "readonly",
             # ndarray subclasses (np.asarray() of these is a NEW base-class view of the caller's memory, so "is it my own
             # copy?" tests by identity go wrong) and tables whose fields differ in byte order
-            "subclass", "masked", "memmap", "memmap-column", "mixed-order"]
+            "subclass", "masked", "memmap", "memmap-column", "mixed-order", "2d-F"]
 _MM = {"n": 0, "dir": None}
 
 
@@ -99,6 +99,10 @@ def make_variant(a, variant):
         r = a.copy()
         r.flags.writeable = False
         return r
+    if variant == "2d-F":
+        if a.ndim == 1 and a.size % 2 == 0 and a.size >= 4 and a.dtype.names is None:
+            return np.asfortranarray(a.reshape(2, -1))
+        return None
     if variant == "subclass":
         return a.copy().view(_Sub)
     if variant == "masked":
@@ -581,7 +585,7 @@ def main(ctx):
     for sname, (arrays, fn) in SPECS.items():
         for variant in VARIANTS:
             for target in list(arrays) + (["*"] if len(arrays) > 1 else []):
-                if variant in ("0d", "2d") and any((sname, t) in STRUCTURAL for t in
+                if variant in ("0d", "2d", "2d-F") and any((sname, t) in STRUCTURAL for t in
                                                    (list(arrays) if target == "*" else [target])):
                     continue
                 units.append((sname, target, variant))
